@@ -81,7 +81,7 @@ func HarnessC06Undo() {
 			}
 		}
 		if w.full != nil {
-			err := w.full.Undo(na, r.b.proof, r.b.hashes, r.prevRoots)
+			err := w.full.Undo(na, w.fullProof(r.b.proof), r.b.hashes, r.prevRoots)
 			verifAssert(err == nil, "C06.mapfull.undo-ok")
 			if err == nil {
 				c06ObserveMap(w.full, live, r.rm, r.v, refPickCombo("reqf", live, verifParam("K", 2)), "C06.mapfull")
@@ -91,6 +91,15 @@ func HarnessC06Undo() {
 			err := w.part.Undo(na, r.b.proof, r.b.hashes, r.prevRoots)
 			verifAssert(err == nil, "C06.mappartial.undo-ok")
 			held := c06Union(r.prevHeld, r.b.delSlots)
+			// Verify(remember=true) ahead of a later block is not part of that block: what it made the
+			// forest track stays tracked when the blocks are undone, as long as the leaf exists
+			var stillHeld []int
+			for _, s := range w.partHeld {
+				if s < len(r.rm.leaves) && r.rm.leaves[s].alive {
+					stillHeld = append(stillHeld, s)
+				}
+			}
+			held = c06Union(held, stillHeld)
 			if err == nil {
 				c06ObserveMap(w.part, held, r.rm, r.v, refPickCombo("reqp", held, verifParam("K", 2)), "C06.mappartial")
 			}
